@@ -4,6 +4,7 @@ import Ivg.Gen.Tie.RendererFields
 import Ivg.Gen.Tie.VecRasterizerFields
 import Ivg.Gen.Tie.Code.Transform
 import Ivg.Gen.Tie.Code.Paint
+import Ivg.Gen.Tie.Code.Vec
 import Ivg.Obligations
 /-!
 # C16 — invariances of rendering (the repository's part)
@@ -270,6 +271,32 @@ example : ((scaleProgram 4 ScaleQ.Ex.role ScaleQ.Ex.prog).drop 11).take 8 =
       [.d1 .H 20, .arc true 12 8 30 true false 16 16] := ScaleQ.Ex.prog_scaled_shape
 end scaling_examples
 
+/-! ## the adapter's `Draw`, as the code has it
+
+`Ivg/Model/VecAdapter.lean` models `(*vec.Rasterizer).Draw` with everything it hands to the library rasteriser it wraps
+(operator, destination, rectangle, source, source point); `Gen.Tie.vecDraw_code_tie` proves the method as translated
+from raster/vec/rasterizer.go on this run equal to it, for all arguments. -/
+
+/-- Any history of Draw calls on the adapter — whatever the rectangles (empty, overhanging the image, …), the sources
+    (flat colours, gradients) and the source points: the library is asked for exactly these draws, in order, into the
+    adapter's destination, with the rectangle, source and source point of each call UNCHANGED, the configured operator
+    for the first and source-over for every later one. -/
+theorem adapter_draws {H : Type} (z : Vec.Adapter H) (ds : List (Vec.DrawArgs H)) :
+    (z.draws ds).inner = z.inner ++ Vec.expected z.dst z.drawOp ds ∧ (z.draws ds).dst = z.dst :=
+  ⟨Vec.draws_inner z ds, Vec.draws_dst z ds⟩
+
+/-- the operator model above (`VecRaster`, two fields) and the adapter model agree on the operator of every Draw -/
+def opCode : VecRaster.Op → Vec.Op
+  | .over => 0
+  | .src => 1
+theorem adapter_operator_agrees {H : Type} (z : VecRaster.Rasterizer) (a : Vec.Adapter H) (h : a.drawOp = opCode z.drawOp)
+    (r : Ren.Rect) (src : H) (spX spY : Int) :
+    (a.draw r src spX spY).inner = a.inner ++ [.setOp (opCode z.draw.2), .draw a.dst r src spX spY] ∧
+    (a.draw r src spX spY).drawOp = opCode z.draw.1.drawOp := by
+  simp [Vec.Adapter.draw, VecRaster.Rasterizer.draw, h, opCode, Vec.over]
+example : ((⟨7, 1, []⟩ : Vec.Adapter Nat).draws [⟨⟨0, 0, 0, 0⟩, 3, 0, 0⟩, ⟨⟨2, 2, 6, 6⟩, 5, 0, 0⟩]).inner =
+    [.setOp 1, .draw 7 ⟨0, 0, 0, 0⟩ 3 0 0, .setOp 0, .draw 7 ⟨2, 2, 6, 6⟩ 5 0 0] := by decide
+
 /-!
 ## Not proved here
 
@@ -288,8 +315,8 @@ end scaling_examples
   `role` is an input — a `SetNReg` operand's role is not visible at the call level, so a graphic that uses one
   register write both as a matrix entry `a, b, d, e` and as a stop offset or `c, f` has no scaled form
   (`rolesOK` is then false).
-* `NewRasterizer` (which calls the inner `Reset`) and the `Dst` field are not modelled: neither touches
-  the outer `DrawOp` (`Gen.Tie.vecRasterizer_fields_tie` pins the field list).
+* `NewRasterizer` (which calls the inner `Reset`) is not modelled: it does not touch the outer `DrawOp`
+  (`Gen.Tie.vecRasterizer_fields_tie` pins the field list).
 -/
 
 end Ivg.Props.C16
@@ -298,6 +325,9 @@ end Ivg.Props.C16
   Ivg.Props.C16.origin_independent, Ivg.Props.C16.origin_independent_step,
   Ivg.Props.C16.colour_indirection, Ivg.Props.C16.colour_indirection_program,
   Ivg.Props.C16.drawop_first_only, Ivg.Props.C16.renderer_drawops,
+  Ivg.Props.C16.adapter_draws, Ivg.Props.C16.adapter_operator_agrees,
+  -- regenerated code (translator): (*vec.Rasterizer).Draw, the library rasteriser an opaque object
+  Ivg.Gen.Tie.vecDraw_code_tie,
   Ivg.Props.C16.scaled_iff, Ivg.Props.C16.scaled_transformOK, Ivg.Props.C16.initGradient_scaled,
   Ivg.Props.C16.step_scaled, Ivg.Props.C16.step_scaled_flat, Ivg.Props.C16.step_scaled_setNReg,
   Ivg.Props.C16.run_scaled, Ivg.Props.C16.pow2_scaling_exact, Ivg.Props.C16.pow2_scaling_exact_pow2,
